@@ -47,12 +47,20 @@ partial def runWorker (i : Nat) (c : Cfg) (moved : Bool) (fuel : Nat := 10000) :
     | some c' => runWorker i c' true (fuel - 1)
     | none => c
 
-/-- after a step, let every blocked-but-now-free waiter run on (lowest id first; the implementation
-    may pick another one, the event comparison tolerates that by re-synchronising on its choice) -/
-partial def settle (n : Nat) (c : Cfg) (started : Nat → Bool) (fuel : Nat := 64) : Cfg :=
+/-- ids `j` named as side effects `+j@…` in an implementation event token -/
+def wokenIn (tok : String) : List Nat :=
+  ((tok.splitOn "+").drop 1).filterMap fun part => ((part.splitOn "@").headD "").toNat?
+
+/-- after a step, let every blocked-but-now-free waiter run on.  WHICH waiter gets the mutex is not
+    determined by the protocol (Go's mutex hand-off): the model follows the implementation's choice
+    (`hint` = the workers the implementation's event token reports as moved), provided it is a legal
+    one — the worker is indeed waiting at `lock` and the mutex is free — and otherwise takes the
+    lowest id. -/
+partial def settle (n : Nat) (c : Cfg) (started : Nat → Bool) (hint : List Nat) (fuel : Nat := 64) : Cfg :=
   if fuel == 0 then c else
-  match (List.range n).find? (fun j => started j && (match (c.th j).k with | .lock :: _ => c.sh.owner.isNone | _ => false)) with
-  | some j => settle n (runWorker j c false) started (fuel - 1)
+  let eligible := fun j => started j && (match (c.th j).k with | .lock :: _ => c.sh.owner.isNone | _ => false)
+  match (hint.find? eligible).orElse (fun _ => (List.range n).find? eligible) with
+  | some j => settle n (runWorker j c false) started hint (fuel - 1)
   | none => c
 
 def hasHooks : Bool := S2.Generated.ProtocolIR.maybeApplyUpdates.any (fun i => match i with | .sched _ => true | _ => false)
@@ -65,7 +73,7 @@ def callsOf (scenario : String) : Option Nat :=
 
 /-- replay of the schedule on the model; returns event tokens and the number of effective +
     no-op applications (= workers that passed schedule point 2) -/
-def replay (n : Nat) (calls : Nat) (pending : Bool) (sched : List Nat) : List String × Nat := Id.run do
+def replay (n : Nat) (calls : Nat) (pending : Bool) (sched : List Nat) (impl : List String) : List String × Nat := Id.run do
   let mut c := init (workerProg calls) pending
   let mut started : List Nat := []
   let mut evs : List String := []
@@ -85,7 +93,7 @@ def replay (n : Nat) (calls : Nat) (pending : Bool) (sched : List Nat) : List St
       else
         c := runWorker i c false
       let st2 := started
-      c := settle n c (fun j => st2.contains j)
+      c := settle n c (fun j => st2.contains j) (wokenIn (impl.getD evs.length ""))
       let after := (List.range n).map fun j => stateTok c j (st2.contains j)
       let mut tok := toString i ++ ":" ++ (after.getD i "?")
       for j in List.range n do
@@ -112,8 +120,9 @@ def handle (op : String) (args res : List String) : Option String :=
     match callsOf scenario, exact with
     | some calls, true =>
       let pending := !(scenario.endsWith "-built")
-      let (evs, _) := replay n calls pending sched
-      let implEvs := (res.filter fun t => !(t.contains '=') && !(t.startsWith "~")).take evs.length
+      let implAll := res.filter fun t => !(t.contains '=') && !(t.startsWith "~")
+      let (evs, _) := replay n calls pending sched implAll
+      let implEvs := implAll.take evs.length
       pure (verdictP evs implEvs prop)
     | _, _ => pure (match prop with | some p => "propfail " ++ p | none => "ok")
   | _, _ => none
